@@ -24,6 +24,8 @@ def defs(fn):
     if d is not None:
         return d
     d = {}
+    stores = []
+    fn._stores = stores
     for l in range(1, fn.argc + 1):
         d.setdefault(l, []).append(Def("arg", -1, l))
     calls = {c.bb: c for c in fn.calls()}
@@ -32,6 +34,10 @@ def defs(fn):
             if s["k"] == "assign":
                 p = s["place"]
                 kind = "part" if "p" in p else "stmt"
+                if "p" in p and p["p"][0] == "*":
+                    # a store through a pointer is not a definition of the pointer local
+                    stores.append(Def("store", bb, i, rv=s["rv"], place=p))
+                    continue
                 d.setdefault(p["l"], []).append(Def(kind, bb, i, rv=s["rv"], place=p))
             elif s["k"] == "setdiscr":
                 p = s["place"]
@@ -40,9 +46,17 @@ def defs(fn):
         if c is not None and c.dest is not None:
             p = c.dest
             kind = "partcall" if "p" in p else "call"
+            if "p" in p and p["p"][0] == "*":
+                stores.append(Def("storecall", bb, None, call=c, place=p))
+                continue
             d.setdefault(p["l"], []).append(Def(kind, bb, None, call=c, place=p))
     fn._defs = d
     return d
+
+
+def stores(fn):
+    defs(fn)
+    return fn._stores
 
 
 def whole_defs(fn, local):
